@@ -40,7 +40,8 @@ class Scripted:
                 self.k += 1
             else:
                 self.tail += 1
-                v = (3.0 - 0.25 * self.tail, 0.05)    # strictly lower, almost flat: accepted at once
+                # strictly lower, almost flat (accepted at once), gradient shrinking: positive curvature
+                v = (3.0 - 0.25 * self.tail, 0.05 * 0.6 ** self.tail)
             self.memo[key] = v
         return v
 
@@ -185,6 +186,25 @@ VALUES = [4.0, 8.0, 10.0, 12.0, 15.0]      # the start value is 10.0
 SLOPES = [1.0, 0.05, -0.5]                  # still steeply descending / almost flat / ascending
 
 
+def scripted_failure_specs():
+    """Accepted steps, then a line search whose trials are all worse (non-fatal failure: memory reset),
+    then more than maxcor accepted steps; and the fatal variant (failure with an empty memory)."""
+    out = []
+    acc, hi = [6.0, 0.05], [15.0, -0.5]
+    for a in (0, 1, 2, 3):
+        for ml in (1, 2, 3):
+            for mc in (1, 2, 3):
+                for ups in (0, 1):
+                    script = [[9.0 - 0.5 * k, 0.5 * 0.6 ** k] for k in range(a)] + [hi] * ml + ([[14.0, -0.5]] * ml if ups else [])
+                    out.append({"family": "scripted", "n": 2, "pseed": 0, "script": script, "nobox": bool((a + ml) % 2),
+                                "cb": "never" if mc % 2 else None,
+                                "kwargs": {"maxiter": a + 2 + mc + 3, "maxfun": 200, "maxls": ml, "maxcor": mc, "ftol": 0.0}})
+    for o in out:
+        if o["cb"] is None:
+            del o["cb"]
+    return out
+
+
 def scripted_specs(rng, exhaustive_len=2, n_random=200, maxls_set=(1, 2, 3, 4, 20)):
     """Scripts over the alphabet VALUES x SLOPES: exhaustive up to a length, random longer ones."""
     import itertools
@@ -205,7 +225,7 @@ def scripted_specs(rng, exhaustive_len=2, n_random=200, maxls_set=(1, 2, 3, 4, 2
                     "kwargs": {"maxiter": int(rng.integers(1, 6)), "maxfun": int(rng.choice([2, 3, 5, 8, 50])),
                                "maxls": int(rng.choice([1, 2, 3, 4, 5, 20])), "maxcor": int(rng.choice([1, 3])),
                                "ftol": float(rng.choice([0.0, 1e-3]))}})
-    return out
+    return out + scripted_failure_specs()
 
 def rand_spec(rng, families, *, nmax=6, small_budgets=True, jacs=("callable",), allow_cb=True,
               allow_target=True, allow_chain=False, allow_gcall=True):
